@@ -42,7 +42,9 @@ def pi_power(q):
             if e and i != ip:
                 return None
         return Fraction(int(c.numerator), int(c.denominator)), m[ip]
-    a = mono(q.n) if q.n != 0 else None
+    if q.n == 0:
+        return Fraction(0), 0
+    a = mono(q.n)
     b = mono(q.d)
     if a is None or b is None:
         return None
@@ -357,17 +359,41 @@ class Angle:
     def __hash__(self):
         return 1
 
+    def _refiner(self, o, strict):
+        """callback refining this angle's window once `theta < t` (or <=) has been decided"""
+        try:
+            tlo, thi, q = self._threshold(o)
+        except UnsupportedInShim:
+            return None
+        if q is None:
+            return None
+
+        def cb(d):
+            if d:      # theta < q  (or <= q)
+                if self.hi is None or q < self.hi or (q == self.hi and strict):
+                    self.hi, self.hi_open = q, strict
+            else:      # theta >= q (or > q)
+                if self.lo is None or q > self.lo or (q == self.lo and not strict):
+                    self.lo, self.lo_open = q, not strict
+        return cb
+
+    def _lt_r(self, o, strict):
+        r = self._lt(o, strict)
+        if isinstance(r, explore.SymBool) and r.cb is None:
+            r.cb = self._refiner(o, strict)
+        return r
+
     def __lt__(self, o):
-        return self._lt(o, True)
+        return self._lt_r(o, True)
 
     def __le__(self, o):
-        return self._lt(o, False)
+        return self._lt_r(o, False)
 
     def __gt__(self, o):
-        return _not(self._lt(o, False))
+        return _not(self._lt_r(o, False))
 
     def __ge__(self, o):
-        return _not(self._lt(o, True))
+        return _not(self._lt_r(o, True))
 
     def __repr__(self):
         return 'Angle(c=%r, s=%r, win=[%s,%s], r=%s, p=%s)' % (self.c, self.s, self.lo, self.hi, self.r, self.p)
